@@ -12,8 +12,8 @@ CONSTANTS
   StyleViaC = {"custom"}
   PageC = {"SetPageMargins"}
   ReopenC = {"mem"}
-  SpellC = {"asis", "abs", "extra", "min"}
-  StyleEdC = {"name", "readd"}
+  SpellC = {"abs", "extra", "min"}
+  StyleEdC = {"readd"}
   RenderViaC = {"doc", "legacy"}
   RenderImgC = {"none", "png"}
   PrepC = {TRUE, FALSE}
